@@ -24,6 +24,7 @@ ASSUMPTIONS = [
     "leave the post-conditions unjudged here (C14 / C15 judge them); the source must be untouched in every case.",
     "Under DocSync.COPY a destination document may be replaced as a whole when the file strategy says so.",
 ]
+MANIFEST = {"technique": 'runtime monitoring: FS-call monitor (P-readonly on the source) + post-condition oracle on byte snapshots', "engine": 'fs-call monitor (audit hook)'}
 TIME_CAP = {"quick": 70, "thorough": 1500}
 
 
